@@ -105,3 +105,93 @@ Definition Addr_Empty (a : go_addr) : bool := a =? go_zero_addr.
 (* `x, err := f(..); if err != nil { return .., Wrap(E, ..) }`: an error of f is replaced by E *)
 Definition map_err {A} (c : Z) (o : outcome A) : outcome A :=
   match o with Err _ => Err c | _ => o end.
+
+(* ---- sdk.Coins: a list of coins; the code translated so far only builds them with sdk.NewCoins(one coin) or receives a
+   fee (valid: pairwise distinct denominations, positive amounts) ---- *)
+Definition GO_PANIC_COINS : Z := 1.      (* "invalid coin set" *)
+Definition GO_PANIC_NILCOIN : Z := 22.   (* a method called on the nil Int of the zero value sdk.Coin{} *)
+(* sdk.NewCoins(c): validates, drops a zero coin *)
+Definition sdk_NewCoins1 (c : go_coin) : outcome (list go_coin) :=
+  if snd c <? 0 then Panic GO_PANIC_COINS else if snd c =? 0 then Ok [] else Ok [c].
+Definition Coins_AmountOf (cs : list go_coin) (d : go_denom) : go_int :=
+  fold_right (fun c acc => if fst c =? d then snd c + acc else acc) 0 cs.
+(* cs.Find(d): the zero value Coin{} when absent *)
+Definition Coins_Find (cs : list go_coin) (d : go_denom) : bool * go_coin :=
+  match find (fun c => fst c =? d) cs with Some c => (true, c) | None => (false, go_zero_coin) end.
+Definition Coins_Empty (cs : list go_coin) : bool := match cs with [] => true | _ => false end.
+Definition Coins_sub1 (cs : list go_coin) (c : go_coin) : list go_coin :=
+  if existsb (fun x => fst x =? fst c) cs
+  then map (fun x => if fst x =? fst c then (fst x, snd x - snd c) else x) cs
+  else cs ++ [(fst c, - snd c)].
+(* cs.SafeSub(c) = cs.safeAdd(NewCoins(c).negative()): (difference, "some amount of it is negative").
+   Coin{} (denomination go_zero_denom) has a nil amount: NewCoins dereferences it. *)
+Definition Coins_SafeSub1 (cs : list go_coin) (c : go_coin) : outcome (list go_coin * bool) :=
+  if fst c =? go_zero_denom then Panic GO_PANIC_NILCOIN
+  else if snd c <? 0 then Panic GO_PANIC_COINS
+  else
+    let r := if snd c =? 0 then cs else Coins_sub1 cs c in
+    Ok (filter (fun x => negb (snd x =? 0)) r, existsb (fun x => snd x <? 0) r).
+Definition Coins_add1 (cs : list go_coin) (c : go_coin) : list go_coin :=
+  if existsb (fun x => fst x =? fst c) cs
+  then map (fun x => if fst x =? fst c then (fst x, snd x + snd c) else x) cs
+  else cs ++ [c].
+(* a.Add(b...) *)
+Definition Coins_AddAll (a b : list go_coin) : outcome (list go_coin) := Ok (fold_left Coins_add1 b a).
+Definition Coin_IsPositive (c : go_coin) : bool := 0 <? snd c.
+
+(* ---- `for _, x := range xs { .. }`: the body maps the loop state to "continue with this state" or "return this
+   value from the function"; errors and panics propagate through the outcome ---- *)
+Inductive loop_res (S R : Type) : Type := LCont (s : S) | LRet (r : R).
+Arguments LCont {S R} s.
+Arguments LRet {S R} r.
+Fixpoint go_range {A S R : Type} (body : A -> S -> outcome (loop_res S R)) (xs : list A) (s : S) : outcome (loop_res S R) :=
+  match xs with
+  | [] => Ok (LCont s)
+  | x :: rest =>
+      do res <- body x s;
+      match res with
+      | LCont s' => go_range body rest s'
+      | LRet v => Ok (LRet v)
+      end
+  end.
+Definition go_len_list {A} (l : list A) : Z := Z.of_nat (List.length l).
+(* `err := f(..); if err != nil { panic(err) }` *)
+Definition panic_on_err {A} (c : Z) (o : outcome A) : outcome A :=
+  match o with Err _ => Panic c | _ => o end.
+Definition go_append {A} (l : list A) (x : A) : list A := l ++ [x].
+Definition Addr_Equals (a b : go_addr) : bool := a =? b.
+(* c.IsValid(): a well-formed denomination and a non-negative amount *)
+Definition Coin_IsValid (c : go_coin) : bool := (0 <=? fst c) && (0 <=? snd c).
+(* a call whose error result is dropped on the floor: a failing call changes nothing, execution goes on *)
+Definition ignore_err {W} (w : W) (o : outcome (W * unit)) : outcome (W * unit) :=
+  match o with Err _ => Ok (w, tt) | _ => o end.
+(* v, _ := f(..): on error v is the zero value *)
+Definition drop_err {A} (z : A) (o : outcome A) : outcome A :=
+  match o with Err _ => Ok z | _ => o end.
+(* xs[i]: out of range panics *)
+Definition GO_PANIC_INDEX : Z := 9.
+Definition go_index {A} (l : list A) (i : Z) : outcome A :=
+  if i <? 0 then Panic GO_PANIC_INDEX else
+  match nth_error l (Z.to_nat i) with Some x => Ok x | None => Panic GO_PANIC_INDEX end.
+(* a nil slice: ranging over it does nothing, like over an empty one *)
+Definition go_is_nil {A} (l : list A) : bool := match l with [] => true | _ => false end.
+(* coins.IsZero(): no coin with a non-zero amount *)
+Definition Coins_IsZero (cs : list go_coin) : bool := forallb (fun c => snd c =? 0) cs.
+(* coins.Add(c): the zero coin is dropped *)
+Definition Coins_AddCoin (cs : list go_coin) (c : go_coin) : outcome (list go_coin) :=
+  Ok (filter (fun x => negb (snd x =? 0)) (Coins_add1 cs c)).
+(* a.IsEqual(b) (cosmos-sdk v0.47): false for different lengths; otherwise compares position by position after
+   sorting and PANICS when two denominations differ (Coin.IsEqual) *)
+Fixpoint Coins_eq_sorted (a b : list go_coin) : outcome bool :=
+  match a, b with
+  | [], [] => Ok true
+  | x :: a', y :: b' =>
+      if negb (fst x =? fst y) then Panic GO_PANIC_DENOM
+      else if negb (snd x =? snd y) then Ok false else Coins_eq_sorted a' b'
+  | _, _ => Ok false
+  end.
+Fixpoint insert_coin (c : go_coin) (l : list go_coin) : list go_coin :=
+  match l with [] => [c] | x :: r => if fst c <=? fst x then c :: l else x :: insert_coin c r end.
+Definition Coins_IsEqual (a b : list go_coin) : outcome bool :=
+  if negb (Nat.eqb (List.length a) (List.length b)) then Ok false
+  else Coins_eq_sorted (fold_right insert_coin [] a) (fold_right insert_coin [] b).
